@@ -57,6 +57,11 @@ type SubPlan struct {
 	// LookupFail: the connection manager cannot name the target's client once - at the given lookup ordinal for that
 	// target (1 = the lookup of the subscription itself, never failed; n+1 = the lookup for the n-th poll)
 	LookupFail map[string]int `json:"lookupFail,omitempty"`
+	// Second: once the first stream has ended (its context cancelled, as gRPC does when the handler returns), a second
+	// northbound stream carries this subscription; the per-target clients are the same objects. Updates2: what each
+	// target emits on the second stream.
+	Second   *SubMsg        `json:"second,omitempty"`
+	Updates2 map[string]int `json:"updates2,omitempty"`
 }
 
 // flakyConns fails chosen GetByTarget lookups (a target that is briefly unknown to the manager).
@@ -211,6 +216,16 @@ func genSubPlan(seed uint64, tier string) *Plan {
 		sp.LookupFail = map[string]int{sp.Targets[g.pick(len(sp.Targets))]: 2 + g.pick(npolls-1)}
 	}
 	sp.Msgs = append(sp.Msgs, SubMsg{Kind: "close"})
+	if g.chance(1, 4) {
+		// (wave 6) a second stream after the first one: the same per-target clients serve it
+		m2 := mkSub()
+		sp.Second = &m2
+		sp.Updates2 = map[string]int{}
+		for _, t := range sp.Targets {
+			sp.Updates2[t] = 1 + g.pick(3)
+		}
+		p.Profile = "subscribe+second-stream"
+	}
 	p.Sub = sp
 	p.Sched = g.RandSched()
 	if p.Sched.Policy == "starve" {
@@ -284,7 +299,9 @@ func subBubble(plan *Plan, res *Result) {
 		cm = &flakyConns{Conns: conns, k: k, fail: sp.LookupFail, count: map[string]int{}}
 	}
 	server := nb.NewServerForVerif(nil, nil, nil, nil, nil, cm, 0)
-	stream := &nbStream{k: k, ctx: ctx}
+	ctx1, cancel1 := context.WithCancel(ctx)
+	defer cancel1()
+	stream := &nbStream{k: k, ctx: ctx1}
 	for _, m := range sp.Msgs {
 		stream.msgs = append(stream.msgs, buildSubReq(m))
 	}
@@ -345,13 +362,15 @@ func subBubble(plan *Plan, res *Result) {
 	// device emissions: enabled once the device has a subscribe stream with its request
 	emitted := map[string]int{}
 	sentByDev := map[string][]*gnmi.SubscribeResponse{}
+	quota := sp.Updates // swapped for Updates2 when the second stream starts
+	emitSeq := 0        // ordinal offset of the second phase (emissions stay a function of plan seed, target, ordinal)
 	k.AddSource("dev-emit", func() []Action {
 		var acts []Action
 		for _, t := range sp.Targets {
 			t := t
 			d := devs[t]
 			subs := d.Subs()
-			if len(subs) == 0 || emitted[t] >= sp.Updates[t] {
+			if len(subs) == 0 || emitted[t] >= quota[t] {
 				continue
 			}
 			s0 := subs[len(subs)-1]
@@ -361,8 +380,8 @@ func subBubble(plan *Plan, res *Result) {
 			if !has {
 				continue
 			}
-			acts = append(acts, Action{Key: fmt.Sprintf("dev/%s/emit/%d", t, emitted[t]), Fire: func() {
-				n := emitted[t]
+			acts = append(acts, Action{Key: fmt.Sprintf("dev/%s/emit/%d", t, emitted[t]+emitSeq), Fire: func() {
+				n := emitted[t] + emitSeq
 				emitted[t]++
 				// what the target emits is a stateless function of (plan seed, target, ordinal): value updates, several
 				// updates, delete-only notifications (a node removed on the device), updates with deletes, notifications
@@ -421,7 +440,184 @@ func subBubble(plan *Plan, res *Result) {
 		default:
 		}
 	}
+	// what the devices had received when the first stream was over: the oracles of the first stream look at this only
+	subs1 := map[string][]*devSub{}
+	for _, t := range sp.Targets {
+		subs1[t] = devs[t].Subs()
+	}
+	// ---- second stream (same server, same connection manager, same per-target client objects)
+	var stream2 *nbStream
+	var herr2 error
+	returned2 := false
+	var hpanic2 any
+	sentByDev1 := sentByDev
+	subsBefore := map[string]int{}
+	if sp.Second != nil && hpanic == nil {
+		cancel1() // what gRPC does once the first handler has returned (or the subscriber has gone away)
+		for n := 0; n < 2000; n++ {
+			synctest.Wait()
+			if !k.Step() {
+				break
+			}
+		}
+		synctest.Wait()
+		for _, t := range sp.Targets {
+			for _, ds := range devs[t].Subs() {
+				devs[t].mu.Lock()
+				for _, r := range ds.Reqs {
+					if r.GetSubscribe() != nil {
+						subsBefore[t]++
+					}
+				}
+				devs[t].mu.Unlock()
+			}
+		}
+		ctx2, cancel2 := context.WithCancel(ctx)
+		defer cancel2()
+		stream2 = &nbStream{k: k, ctx: ctx2, msgs: []*gnmi.SubscribeRequest{buildSubReq(*sp.Second), nil}}
+		sentByDev = map[string][]*gnmi.SubscribeResponse{}
+		emitSeq = 100
+		emitted = map[string]int{}
+		quota = sp.Updates2
+		// emissions go to the stream each device opened for the second subscription only
+		nsubs1 := map[string]int{}
+		for _, t := range sp.Targets {
+			nsubs1[t] = len(devs[t].Subs())
+		}
+		q2 := map[string]int{}
+		quota = q2
+		done2 := make(chan error, 1)
+		k.Active = "handler2"
+		go func() {
+			defer func() {
+				if p := recover(); p != nil {
+					hpanic2 = p
+					done2 <- fmt.Errorf("PANIC: %v", p)
+				}
+			}()
+			done2 <- server.Subscribe(stream2)
+		}()
+		for n := 0; n < 5000; n++ {
+			synctest.Wait()
+			for _, t := range sp.Targets {
+				if len(devs[t].Subs()) > nsubs1[t] {
+					q2[t] = sp.Updates2[t]
+				}
+			}
+			if !returned2 {
+				select {
+				case herr2 = <-done2:
+					returned2 = true
+				default:
+				}
+			}
+			if !k.Step() {
+				break
+			}
+		}
+		synctest.Wait()
+		if !returned2 {
+			select {
+			case herr2 = <-done2:
+				returned2 = true
+			default:
+			}
+		}
+	}
+	sentByDev2 := sentByDev
+	sentByDev = sentByDev1
 	// ---- oracles
+	if hpanic2 != nil {
+		report("handler", "panic", fmt.Sprintf("Subscribe panicked on a second stream (%s): %v", describeMsgs([]SubMsg{*sp.Second}), hpanic2))
+	}
+	if stream2 != nil && hpanic2 == nil {
+		// the second stream: every target it names received one more subscription, and everything those targets emitted
+		// on it was relayed to the second subscriber, unmodified, in per-target order
+		exp2 := map[string]bool{}
+		if sp.Second.PrefixTarget != "" {
+			exp2[sp.Second.PrefixTarget] = true
+		} else {
+			for _, e := range sp.Second.Entries {
+				if e.Target != "" {
+					exp2[e.Target] = true
+				}
+			}
+		}
+		if len(exp2) == 0 {
+			if !returned2 || herr2 == nil || herr2 == io.EOF {
+				report("refusal", "no-target-second-stream", fmt.Sprintf("a second stream whose subscription names no target must be refused; returned=%v err=%v", returned2, herr2))
+			}
+		} else {
+			for _, t := range sp.Targets {
+				n := 0
+				for _, ds := range devs[t].Subs() {
+					devs[t].mu.Lock()
+					for _, r := range ds.Reqs {
+						if r.GetSubscribe() != nil {
+							n++
+						}
+					}
+					devs[t].mu.Unlock()
+				}
+				if exp2[t] && n-subsBefore[t] != 1 {
+					report("second-stream", "subscription-count", fmt.Sprintf("target %s must receive exactly one subscription for the second stream, received %d", t, n-subsBefore[t]))
+				} else if !exp2[t] && n != subsBefore[t] {
+					report("second-stream", "unnamed-target-received", fmt.Sprintf("target %s is not named by the second stream's subscription but received %d more subscription(s)", t, n-subsBefore[t]))
+				}
+			}
+			stream2.mu.Lock()
+			sent2 := append([]*gnmi.SubscribeResponse{}, stream2.sent...)
+			stream2.mu.Unlock()
+			pos2 := map[string]int{}
+			{
+				// same search as for the first stream: responses that do not name their target can belong to any target
+				tgs := append([]string{}, sp.Targets...)
+				best := 0
+				seen := map[string]bool{}
+				var search func(i int, ps []int) bool
+				search = func(i int, ps []int) bool {
+					key := fmt.Sprint(i, ps)
+					if seen[key] {
+						return false
+					}
+					seen[key] = true
+					if i >= best {
+						best = i
+						for j, t := range tgs {
+							pos2[t] = ps[j]
+						}
+					}
+					if i == len(sent2) {
+						return true
+					}
+					r := sent2[i]
+					named := r.GetUpdate().GetPrefix().GetTarget()
+					for j, t := range tgs {
+						if named != "" && named != t {
+							continue
+						}
+						if e := sentByDev2[t]; ps[j] < len(e) && proto.Equal(e[ps[j]], r) {
+							ps[j]++
+							if search(i+1, ps) {
+								return true
+							}
+							ps[j]--
+						}
+					}
+					return false
+				}
+				if !search(0, make([]int, len(tgs))) {
+					report("second-stream", "modified-or-reordered", fmt.Sprintf("the second subscriber received %v (response %d of %d), which is not the next response of any target on that stream", sent2[best], best+1, len(sent2)))
+				}
+			}
+			for _, t := range sp.Targets {
+				if exp2[t] && pos2[t] != len(sentByDev2[t]) {
+					report("second-stream", "update-lost", fmt.Sprintf("target %s emitted %d responses on the second stream, the second subscriber received %d", t, len(sentByDev2[t]), pos2[t]))
+				}
+			}
+			k.Probe("c19-second-stream-checked")
+		}
+	}
 	if hpanic != nil {
 		report("handler", "panic", fmt.Sprintf("Subscribe panicked on a message sequence (%s): %v", describeMsgs(sp.Msgs), hpanic))
 	} else {
@@ -431,7 +627,7 @@ func subBubble(plan *Plan, res *Result) {
 				report("refusal", illegal, fmt.Sprintf("the sequence %s must be refused with an error; handler returned=%v err=%v", describeMsgs(sp.Msgs), returned, herr))
 			}
 			for t, d := range devs {
-				for _, s := range d.Subs() {
+				for _, s := range subs1[t] {
 					d.mu.Lock()
 					nr := len(s.Reqs)
 					d.mu.Unlock()
@@ -448,7 +644,7 @@ func subBubble(plan *Plan, res *Result) {
 			for _, t := range sp.Targets {
 				d := devs[t]
 				var reqs []*gnmi.SubscribeRequest
-				for _, s := range d.Subs() {
+				for _, s := range subs1[t] {
 					d.mu.Lock()
 					reqs = append(reqs, s.Reqs...)
 					d.mu.Unlock()
@@ -557,7 +753,7 @@ func subBubble(plan *Plan, res *Result) {
 		}
 	}
 	multi := len(expectTargets) >= 2
-	res.NonTrivial = multi || illegal != "" || secondSub || (pollsAfter > 0 && len(sentByDev) > 0)
+	res.NonTrivial = multi || illegal != "" || secondSub || (pollsAfter > 0 && len(sentByDev) > 0) || stream2 != nil
 	res.Steps = k.StepN
 	res.Trace = k.Trace
 	// the case is (message sequence, schedule): runs are short, so the scenario is part of the case identity
